@@ -75,6 +75,11 @@ def value_members(cat: str, rng: random.Random, extra: int):
         "date_far": ["Fri, 31 Dec 9999 23:59:59 GMT"],
         "date_rfc850": ["Friday, 06-Nov-37 08:49:37 GMT"], "date_asctime": ["Fri Nov  6 08:49:37 2037"],
         "date_naive": ["06 Nov 2037 08:49:37"],
+        "date_bigfield": ["Wed, 21 Oct 99999999999 07:28:00 GMT", "Wed, 21 Oct 2015 99999999999:28:00 GMT",
+                          "Wed, 99999999999999999999 Oct 2015 07:28:00 GMT",
+                          "Wed, 21 Oct 2015 07:28:99999999999 GMT"],
+        "date_zoned_edge": ["Fri, 31 Dec 9999 23:59:59 -0500", "Fri, 31 Dec 9999 23:59:59 EST",
+                            "Mon, 01 Jan 0001 00:00:00 +0500", "Fri, 31 Dec 9999 23:59:59 -0001"],
         "garbage": ["soon", "tomorrow at noon", "éè", "Retry-After"], "nul": ["1\x002", "\x00"],
         "hex": ["0x10", "0b1", "١٢٣x"],
     }[cat]
